@@ -73,14 +73,24 @@ func TestVerifC26(t *testing.T) {
 			first := target // ID of the very first snapshot of the chain
 			// optionally one fault-free rewrite first, so that the swept operation works on an already rewritten snapshot
 			var hist []string
+			// other snapshots handled by the same invocation as the target (batching across snapshots)
+			var extra []string
 			doOp := func(kind string, id string, f fault, n int) (string, error, *proc) {
 				pr := w.newProc(kind)
 				w.arm(pr, f)
 				var err error
+				all := append([]string{id}, extra...)
 				switch kind {
 				case "tag":
-					err = w.cmdTag(pr, []string{id}, fmt.Sprintf("tag%d", n))
-					w.syncModel(id, nil)
+					err = w.cmdTag(pr, all, fmt.Sprintf("tag%d", n))
+					for _, x := range all {
+						w.syncModel(x, nil)
+					}
+				case "rewrite-host-multi":
+					err = w.cmdRewriteMeta(pr, all, fmt.Sprintf("newhost%d", n), true)
+					for _, x := range all {
+						w.syncModel(x, nil)
+					}
 				case "rewrite-exclude":
 					name := w.anyFileName(w.snaps[id].Root)
 					if name == "" {
@@ -126,7 +136,20 @@ func TestVerifC26(t *testing.T) {
 				}
 			}
 			kind := kinds[tp.Choose(len(kinds))]
-			hist = append(hist, kind+"(swept)")
+			if tp.Choose(3) == 0 {
+				// several snapshots in one invocation
+				for _, id := range w.sortedSnaps() {
+					if id != target {
+						extra = append(extra, id)
+					}
+				}
+				if len(extra) > 0 && tp.Choose(2) == 0 {
+					kind = "rewrite-host-multi"
+				} else if len(extra) > 0 {
+					kind = "tag"
+				}
+			}
+			hist = append(hist, fmt.Sprintf("%s(swept, %d snapshots)", kind, 1+len(extra)))
 			r.Set("history", fmt.Sprint(hist))
 			w.postRun()
 			if r.Failed() || w.snaps[target] == nil {
@@ -181,16 +204,38 @@ func TestVerifC26(t *testing.T) {
 					if kind == "tag" && sn.Original != first {
 						r.Fail("original", "wrong-original", "%s: retagged snapshot %s has original %q, want the first snapshot's ID %s", where, id[:8], sn.Original, first[:8])
 					}
-					if (kind == "tag" || kind == "rewrite-host") && oldTree != nil && sn.Tree != oldTree.Tree {
+					if (kind == "tag" || kind == "rewrite-host" || kind == "rewrite-host-multi") && len(extra) == 0 && oldTree != nil && sn.Tree != oldTree.Tree {
 						r.Fail("tree", "tree-changed", "%s: %s changed the tree from %s to %s", where, kind, oldTree.Tree[:8], sn.Tree[:8])
 					}
 				}
-				if completed && kind != "rewrite-keep" && oldThere && len(successors) > 0 {
+				if completed && kind != "rewrite-keep" && oldThere && len(successors) > 0 && len(extra) == 0 {
 					r.Fail("old-removed", "old-not-removed", "%s: the old snapshot still exists after the operation completed", where)
+				}
+				for _, x := range extra {
+					if _, there := dec[x]; there {
+						continue
+					}
+					found := false
+					xo := x
+					if m := snaps0[x]; m != nil && m.Orig != "" {
+						xo = m.Orig
+					}
+					for id, sn := range dec {
+						if _, known0 := snaps0[id]; !known0 && (sn.Original == x || sn.Original == xo) {
+							found = true
+						}
+					}
+					if !found {
+						r.Fail("old-or-new", "snapshot-lost", "%s: of snapshot %s (handled in the same invocation) neither the old nor a rewritten one exists", where, x[:8])
+					}
 				}
 				// everything present must be complete and restore as the model says
 				w.recoverLocks(where)
-				w.dropGone(map[string]bool{target: true}, "other-snapshots", where)
+				gone := map[string]bool{target: true}
+				for _, x := range extra {
+					gone[x] = true
+				}
+				w.dropGone(gone, "other-snapshots", where)
 				w.snapshotsComplete("complete-snapshots", where)
 				w.verifyAll("content", where)
 				if completed {
